@@ -43,6 +43,7 @@ def import_repo():
     for name, m in list(sys.modules.items()):
         if name.startswith('amr_kitchen') and isinstance(m, types.ModuleType) and name not in mods:
             mods[name] = m
+    _snapshot_state(mods)
     for name, m in mods.items():
         if isinstance(m, types.ModuleType):
             f = getattr(m, '__file__', None)
@@ -51,6 +52,58 @@ def import_repo():
             if not f.startswith(REPO_ROOT + '/'):
                 raise RuntimeError('module %s was imported from %s, not from %s' % (name, f, REPO_ROOT))
     return mods
+
+
+# Mutable module-level and class-level containers of /repo (e.g. a class attribute `ids_keep = []`) as they are right
+# after import.  Every run of the real code under the engine starts from this state (Patched.__enter__), as a fresh
+# interpreter would: what one explored path leaves behind must not leak into the next one, or a counterexample would
+# depend on the order in which the harness happened to run its cases and could not be replayed on its own.  State that
+# leaks between the steps of ONE path (one history) is of course kept: that is the code's behaviour.
+_STATE = []
+
+
+def _snapshot_state(mods):
+    import copy
+    del _STATE[:]
+    seen = set()
+
+    def note(owner, key, val):
+        if isinstance(val, (list, dict, set)) and id(val) not in seen:
+            seen.add(id(val))
+            try:
+                _STATE.append((val, copy.deepcopy(val)))
+            except Exception:
+                pass
+    for name, m in mods.items():
+        if not isinstance(m, types.ModuleType):
+            continue
+        for k, v in list(vars(m).items()):
+            if k.startswith('__'):
+                continue
+            note(m, k, v)
+            if isinstance(v, type) and getattr(v, '__module__', '') == m.__name__:
+                for ck, cv in list(vars(v).items()):
+                    if not ck.startswith('__'):
+                        note(v, ck, cv)
+
+
+def reset_repo_state():
+    import copy
+    for live, saved in _STATE:
+        try:
+            if live == saved:
+                continue
+        except Exception:
+            pass
+        fresh = copy.deepcopy(saved)
+        if isinstance(live, list):
+            live[:] = fresh
+        elif isinstance(live, dict):
+            live.clear()
+            live.update(fresh)
+        else:
+            live.clear()
+            live |= fresh
 
 
 class PathFacade:
@@ -221,6 +274,7 @@ class Patched:
 
     def __enter__(self):
         fs = self.fs
+        reset_repo_state()
         npfacade.set_fs(fs)
         _pool.SymPool.fs = fs
         _pool.SymPool.schedule = self.schedule
